@@ -122,6 +122,8 @@ type Oblig struct {
 	Script string
 	Alt    string
 	Cand   string
+	Cubes  []string // boolean terms to case-split on when the plain query is too slow
+	ctxRef *Ctx
 	info   *replayInfo
 	inLoop bool
 	Res    SolveResult
@@ -381,22 +383,42 @@ func (r *Run) newRef(st *State) string {
 		r.allocRefs = map[string]bool{}
 	}
 	r.allocRefs[ref] = true
-	st.alloc = r.ctx.define("alloc", sRef, "(+ "+st.alloc+" 1)")
+	st.alloc = r.ctx.define("alloc", sRef, fmt.Sprintf("(+ %s %d)", st.alloc, refStride))
 	return ref
 }
 
-func (r *Run) fldRef(structKey, field string, base string) string {
-	f := "fld." + sanitize(structKey) + "." + sanitize(field)
-	if !r.fld[f] {
-		r.fld[f] = true
-		id := len(r.fld)
-		r.ctx.prelude = append(r.ctx.prelude,
-			fmt.Sprintf("(declare-fun %s (%s) %s)", f, sRef, sRef),
-			fmt.Sprintf("(declare-fun %s.inv (%s) %s)", f, sRef, sRef),
-			fmt.Sprintf("(assert (forall ((x %s)) (! (and (= (%s.inv (%s x)) x) (= (refkind (%s x)) %s) (= (= (%s x) 0) (= x 0))) :pattern ((%s x)))))", sRef, f, f, f, bvLit(uint64(id), 16), f, f),
-		)
+// References are addresses in a flat space: every top-level object sits at a multiple of
+// refStride, and a struct embedded in another (Packet.Header, Muxer.pmt) sits at its
+// parent's address plus a layout offset. Pointers to embedded structs are therefore
+// ordinary references, injective by construction, and ordered like their parents.
+const refStride = 1 << 20
+
+func structSize(t types.Type) int64 {
+	u, ok := t.Underlying().(*types.Struct)
+	if !ok {
+		return 1
 	}
-	return "(" + f + " " + base + ")"
+	n := int64(1)
+	for i := 0; i < u.NumFields(); i++ {
+		n += structSize(u.Field(i).Type())
+	}
+	return n
+}
+
+func fieldOffset(t types.Type, f *types.Var) int64 {
+	u := t.Underlying().(*types.Struct)
+	off := int64(1)
+	for i := 0; i < u.NumFields(); i++ {
+		if u.Field(i) == f {
+			return off
+		}
+		off += structSize(u.Field(i).Type())
+	}
+	return off
+}
+
+func (r *Run) fldRefT(structT types.Type, f *types.Var, base string) string {
+	return fmt.Sprintf("(+ %s %d)", base, fieldOffset(structT, f))
 }
 
 // seqOf returns the abstract sequence  sub(arr, off, n)  over elements of sort es. Two
@@ -418,7 +440,7 @@ func (r *Run) globalRef(name string) string {
 	if g, ok := r.globals[name]; ok {
 		return g
 	}
-	g := refLit(uint64(len(r.globals) + 16))
+	g := refLit(uint64(len(r.globals)+16) * refStride)
 	r.globals[name] = g
 	return g
 }
@@ -667,7 +689,7 @@ func (r *Run) loadStruct(st *State, ref string, t types.Type) (Value, error) {
 	for i := 0; i < u.NumFields(); i++ {
 		f := u.Field(i)
 		if isStruct(f.Type()) {
-			v, err := r.loadStruct(st, r.fldRef(namedKey(t), f.Name(), ref), f.Type())
+			v, err := r.loadStruct(st, r.fldRefT(t, f, ref), f.Type())
 			if err != nil {
 				return nil, err
 			}
@@ -695,7 +717,7 @@ func (r *Run) storeStruct(st *State, ref string, t types.Type, v Value) error {
 	for i := 0; i < u.NumFields(); i++ {
 		f := u.Field(i)
 		if isStruct(f.Type()) {
-			if err := r.storeStruct(st, r.fldRef(namedKey(t), f.Name(), ref), f.Type(), sv.F[i]); err != nil {
+			if err := r.storeStruct(st, r.fldRefT(t, f, ref), f.Type(), sv.F[i]); err != nil {
 				return err
 			}
 			continue
